@@ -916,6 +916,26 @@ def construct(E, cref, args, kwargs, st, node):
     # namedtuple-like classes created by assignment are not ClassDefs; real classes:
     init = E.find_method(clsname, "__init__")
     obj = ObjV(clsname, {})
+    if init is None and E.find_method(clsname, "__new__") is None:
+        # class X(collections.namedtuple("X", [...fields...])) without a constructor of its own: a record of those fields
+        for b in cref.node.bases:
+            if isinstance(b, ast.Call) and (getattr(b.func, "attr", None) == "namedtuple" or getattr(b.func, "id", None) == "namedtuple") and len(b.args) >= 2:
+                fa = b.args[1]
+                fields = None
+                if isinstance(fa, ast.Constant) and isinstance(fa.value, str):
+                    fields = fa.value.replace(",", " ").split()
+                elif isinstance(fa, (ast.List, ast.Tuple)) and all(isinstance(e, ast.Constant) and isinstance(e.value, str) for e in fa.elts):
+                    fields = [e.value for e in fa.elts]
+                if fields is not None:
+                    if len(args) > len(fields) or any(k not in fields for k in kwargs) or any(f in kwargs for f in fields[:len(args)]) \
+                            or len(args) + len(kwargs) != len(fields):
+                        raise EngineError("bad arguments for namedtuple class %s" % clsname)
+                    vals = dict(zip(fields, args))
+                    vals.update(kwargs)
+                    if not hasattr(E, "namedtuples"):
+                        E.namedtuples = {}
+                    E.namedtuples[clsname] = tuple(fields)
+                    return [(st, ObjV(clsname, vals))]
     if init is None:
         return [(st, obj)]
     fv = init[0].bind(obj)
